@@ -36,6 +36,18 @@ through the whole skip-list lattice on the real `save(skip=...)` / `load(skip=..
           it: a registered KNOWN finding, emitted under its own class (relation=skip_reaches_nested_object,
           nested_kind=autoserialize_and_nn_module); anything else that differs on that graph gets another class.
 
+  instances : "an instance of a listed type" in every way Python knows: the concrete class, a base class (bool for int is in the
+          lattice above; nn.Parameter / nn.Module / np.generic / PurePath / AutoSerialize here), abstract base classes with virtual
+          subclasses (numbers.*, collections.abc.*, os.PathLike), a user ABC with register(), an ABC with __subclasshook__,
+          runtime-checkable Protocols, a metaclass with __instancecheck__, object: 44 types x store (quick: both stores for one
+          member of every way, alternating otherwise) + all pairs of a 10-type pool, at save time, on a graph with an attribute
+          of every value kind (Python / NumPy scalars, str, bytes, None, paths, arrays incl. 0-d, tensors, a Parameter, a module,
+          list / tuple / dict / set / frozenset / range / container subclasses, a Generator, nested objects) at the root and at
+          two nested levels; five of the types on the hybrid root (registered parameters / buffers / sub-modules). Oracle:
+          absent iff isinstance(original value, listed). Spellings outside the signature (a tuple nested in the list, a PEP 604
+          union, a typing alias) must be refused (exception, nothing written), or get isinstance semantics, or be ignored as a
+          whole (HEAD: ignored, like every element that is neither str nor type); the outcome is counted.
+
 Oracle: a fresh in-memory build of the graph with the named attributes (and the attributes that are
 instances of a listed type) deleted at every level reached through attributes, compared with the C01
 structural-equality relation — survivors are compared for equality, not just presence; dict keys and
@@ -61,7 +73,11 @@ CLAIM = (
     "load-time skipping gives exactly the save-time result. Every ordered pair (thorough: triple) of save calls over six skip "
     "configurations, on one object and on two, through AutoSerialize.save and through Ptychography.save (with and without raw data) "
     "on a tiny real reconstruction, is executed in one process with every target judged by its own call's lists only, and the "
-    "module-level mutable state of serialize.py and ptychography.py must be unchanged after every history. Exploration is the right level: the property is a statement over a "
+    "module-level mutable state of serialize.py and ptychography.py must be unchanged after every history. The type lists also cover "
+    "every way in which a value can be an instance of a listed type (concrete class, base class, abstract base classes with virtual "
+    "subclasses from numbers / collections.abc / os, a user ABC with register(), __subclasshook__, runtime-checkable Protocols, a "
+    "metaclass __instancecheck__, object), singly and in pairs, on a graph with an attribute of every value kind at the root and at "
+    "nested levels and on a hybrid module root: an attribute is absent iff isinstance(original value, listed types) holds. Exploration is the right level: the property is a statement over a "
     "finite lattice of skip lists, each point decided exactly by one execution."
 )
 NOTE = (
@@ -74,6 +90,7 @@ NOTE = (
 RULE = (
     "Full enumeration of name subsets x when x store and of type subsets x store (plus name x type pairs) on one 3-level graph, plus every "
     "ordered pair (thorough: triple) of save calls over six skip configurations x {one object, two objects} through AutoSerialize.save and Ptychography.save. "
+    "Every member of the instance-relation type alphabet (44 types in 8 ways of being an instance) x store, every pair of a 10-type pool, 5 type lists on a hybrid root. "
     "A point is non-trivial when its skip lists remove at least one attribute of the graph; distinct = distinct (skip lists, when, store)."
 )
 
@@ -1352,6 +1369,24 @@ def instance_matches(seed):
     return out
 
 
+def instance_matches_not_in_mro(seed):
+    """{type name: attributes that are instances although the listed type is not in type(value).__mro__}."""
+    out = {}
+
+    def walk(o, T):
+        n = 0
+        for v in vars(o).values():
+            if isinstance(v, T):
+                n += int(T not in type(v).__mro__)
+            elif isinstance(v, S.AutoSerialize):
+                n += walk(v, T)
+        return n
+
+    for t in INSTANCE_TYPES:
+        out[t] = walk(S.build(INSTANCE_GRAPH, seed), _instance_type(t))
+    return out
+
+
 def enumerate_instance(quick):
     first = {ts[0] for ts in INSTANCE_WAYS.values()} | {"numbers.Integral", "abc.Mapping"}
     items = []
@@ -1451,6 +1486,14 @@ def run(ctx):
     m6 = ctx.pmap(eval_root_kind, ritems, chunk=1, label="root kinds", seed=ctx.seed, scratch=ctx.scratch)
     if S.AttrsRoot is None:
         ctx.seam_missing.append("the attrs package is not importable: the attrs-style root is not exercised")
+    iitems = enumerate_instance(ctx.quick)
+    m8 = ctx.pmap(eval_instance, iitems, chunk=2, label="instance relations", seed=ctx.seed, scratch=ctx.scratch)
+    reach, virtual = instance_matches(ctx.seed), instance_matches_not_in_mro(ctx.seed)
+    if min(reach.values()) < 1:
+        raise Broken(f"instance-relation alphabet has a member that matches no attribute of the graph: {reach}")
+    for way, ts in INSTANCE_WAYS.items():
+        if way not in ("concrete class", "base class", "object") and any(virtual[t] < 1 for t in ts):
+            raise Broken(f"instance-relation alphabet: a member of '{way}' matches nothing outside the MRO: { {t: virtual[t] for t in ts} }")
     litems = [{"scenario": sc} for sc in RELOAD_SCENARIOS]
     m7 = ctx.pmap(eval_reload, litems, chunk=1, label="module reload", seed=ctx.seed, scratch=ctx.scratch)
     pitems = enumerate_spellings(ctx.quick)
@@ -1467,7 +1510,7 @@ def run(ctx):
         },
         bounds={"name_subsets": len(subs), "type_subsets_max_size": 2, "type_subsets": len(tsubs), "name_x_type_pairs": len(TYPE_NAMES) * len(UNIVERSE) * 2, "disjoint_pairs": npairs},
         relations=["skip_names (when=save: the recorded list is honoured by a plain load)", "load_time_equals_save_time", "skip_types",
-                   "history:save_independent_of_earlier_saves", "history:from_file_attribute_names", "history:module_level_state_unchanged"],
+                   "skip_types_isinstance (absent iff isinstance(original value, listed types))", "history:save_independent_of_earlier_saves", "history:from_file_attribute_names", "history:module_level_state_unchanged"],
         root_kinds={
             "roots": ["plain (the lattice)", "hybrid AutoSerialize + torch.nn.Module"] + (["attrs-style"] if S.AttrsRoot is not None else []),
             "name_sets": ROOT_NAME_SETS, "type_sets_at_save": ROOT_TYPE_SETS, "when": ["save", "load", "both"], "items": len(ritems), "points": int(m6.extra["root_kind_points"]),
@@ -1483,6 +1526,14 @@ def run(ctx):
             "spellings": ["list (canonical)", "tuple", "set", "duplicates", "bare_str", "bare_type", "types_first", "generator (names only)"],
             "ptychography_child": S.show(PTYCHO_CHILD), "items": len(pitems), "points": int(m5.extra["spelling_points"]),
             "spellings_outside_the_signature_rejected": int(m5.extra["spellings_outside_the_signature_rejected"]),
+        },
+        instance_relations={
+            "ways_of_being_an_instance": INSTANCE_WAYS, "graph": S.show(INSTANCE_GRAPH), "stores": list(STORES) if not ctx.quick else "both for one member of every way, alternating for the others and for pairs",
+            "attributes_matched_per_type": reach, "of_which_not_through_the_mro": virtual, "pair_pool": INSTANCE_PAIR_POOL,
+            "pairs": len(list(itertools.combinations(INSTANCE_PAIR_POOL, 2))), "hybrid_root_types": INSTANCE_TYPES_HYBRID_ROOT,
+            "spellings_outside_the_signature": INSTANCE_NESTED_SPELLINGS,
+            "spellings_outside_the_signature_outcomes": {k[len("instance_nested_spelling_"):]: int(v) for k, v in m8.extra.items() if k.startswith("instance_nested_spelling_")},
+            "items": len(iitems), "points": int(m8.extra["instance_points"]),
         },
         hybrid_nested_object={
             "graph": S.show(HYBRID_GRAPH), "name_sets": HYBRID_NAME_SETS, "when": ["save", "load", "both"], "points": int(m4.extra["hybrid_points"]),
@@ -1500,6 +1551,8 @@ def run(ctx):
         raise Broken(f"enumeration incomplete: {m1.extra['name_points']} name points, {m2.extra['type_points']} type points")
     if int(m3.extra["save_histories_autoserialize"]) + int(m3.extra["save_histories_ptychography"]) != len(hitems) or len(m3.outcomes) < 10:
         raise Broken(f"save-history enumeration degenerate: {dict(m3.extra)}, {len(m3.outcomes)} outcomes for {len(hitems)} histories")
+    if int(m8.extra["instance_points"]) != len(iitems) or len(m8.outcomes) < len(INSTANCE_WAYS):
+        raise Broken(f"instance-relation family degenerate: {m8.extra['instance_points']} points for {len(iitems)} items, {len(m8.outcomes)} outcomes")
     if int(m6.extra["root_kind_points"]) < len(ritems):
         raise Broken(f"root-kind family degenerate: {m6.extra['root_kind_points']} points for {len(ritems)} items")
     if undriven:
@@ -1516,7 +1569,8 @@ def run(ctx):
 
 def replay(ctx, case):
     seed = case.get("seed", ctx.seed)
-    print(f"  graph: {S.show(GRAPH)}")
+    if case["family"] != "instance":
+        print(f"  graph: {S.show(GRAPH)}")
     if case["family"] == "reload":
         rec, err = run_reload(case, seed, ctx.scratch)
         if rec is None:
@@ -1526,6 +1580,23 @@ def replay(ctx, case):
             print(f"  store={r['store']} when={r['when']} names={r['names']} types={r['types']}: {r['status']} {r['detail'] or ''}")
             if r["status"] != "ok":
                 ctx.fail({"relation": "skip_across_module_reload", "scenario": case["scenario"], "when": r["when"], "by": "type" if r["types"] else "name", "symptom": r["status"]}, case, str(r["detail"]))
+        return
+    if case["family"] == "instance":
+        import importlib
+
+        for mn in STATE_MODULES:
+            importlib.import_module(mn)
+        state_snapshot()
+        f, outcome, _, info = run_instance(case, seed, ctx.scratch)
+        for cls, msg in f:
+            ctx.fail(cls, case, msg)
+        tt = tuple(_instance_type(t) for t in case["types"])
+        exp = S.build(INSTANCE_GRAPH, seed)
+        n = prune(exp, set(), tt)
+        print(f"  graph: {S.show(INSTANCE_GRAPH)}")
+        print(f"  save(skip={'[' + ', '.join(case['types']) + ']'}{' spelled as ' + case['form'] if case.get('form') else ''}) store={case['store']}; isinstance holds for {n} attribute(s)")
+        print(f"  expected: {str(S.summary(exp))[:600]}")
+        print(f"  observed: {str(outcome)[:600]} {info or ''}")
         return
     if case["family"] == "root_kind":
         import importlib
